@@ -133,6 +133,7 @@ structure NodeR where
   parent : Option Nat := none
   children : List Nat := []
   posBefore : Option Pos := none     -- position before `move` (what `unMakeMove` with the stored UndoInfo restores)
+  txt : List Char := []              -- model-only: the SYMBOL text the move was read from (for the token-level cross-check)
 
 inductive PErr where
   | oob            -- an unchecked string index would have been out of range
@@ -179,68 +180,81 @@ def skipGroup : Nat → Sc → Nat → Sc × Bool
     | .eof => (sc, false)
     | _ => skipGroup f sc level
 
+/-- the local variables of `Node::parsePgn`: position, current node, the detached `nodeToAdd`, `moveAdded` -/
+structure Cur where
+  pos : Pos
+  node : Nat
+  pending : NodeR := {}
+  moveAdded : Bool := false
+
+/-- `if (moveAdded) { addChild(pos, node, nodeToAdd); moveAdded = false; }` -/
+def flush (st : PState) (c : Cur) : PState × Cur :=
+  if c.moveAdded then
+    let r := addChild st c.pos c.node c.pending
+    (r.1, { pos := r.2.1, node := r.2.2, pending := {}, moveAdded := false })
+  else (st, c)
+
+/-- the SYMBOL arm before the move is looked up: strip a final '+', strip a `!`/`?` suffix and put the NAG back.
+    `tok.token[tok.token.length() - 1]` and `tok.token[movLen - 1]` are checked accesses. -/
+def symbolPrep (tok : List Char) (sc : Sc) : Except PErr (Array Char × Sc) :=
+  let t := tok.toArray
+  match t[t.size - 1]? with
+  | none => .error .oob
+  | some lastChar =>
+    let t := if lastChar == '+' then t.extract 0 (t.size - 1) else t
+    if isAnn lastChar then
+      match annStart t (t.size - 1) with
+      | .error e => .error e
+      | .ok movLen =>
+        let nag := annToNag (t.extract movLen t.size).toList
+        .ok (t.extract 0 movLen, if nag > 0 then sc.putBack { ty := .nag, s := (toString nag).toList } else sc)
+    else .ok (t, sc)
+
+def isResultText (s : List Char) : Bool := strEq s "1-0" || strEq s "0-1" || strEq s "1/2-1/2" || strEq s "*"
+
 /-- `Node::parsePgn(scanner, pos, node)` -/
-def parsePgn : Nat → PState → Pos → Nat → NodeR → Bool → Except PErr PState
-  | 0, _, _, _, _, _ => .error .fuel
-  | f + 1, st, pos, node, pending, moveAdded =>
-    let (tok, sc) := st.sc.next
-    let st := { st with sc := sc }
-    let finish : Except PErr PState :=
-      if moveAdded then .ok (addChild st pos node pending).1 else .ok st
+def parsePgn : Nat → PState → Cur → Except PErr PState
+  | 0, _, _ => .error .fuel
+  | f + 1, st0, c =>
+    let tok := st0.sc.next.1
+    let st : PState := { st0 with sc := st0.sc.next.2 }
     match tok.ty with
-    | .integer | .period => parsePgn f st pos node pending moveAdded
+    | .integer | .period => parsePgn f st c
     | .lparen =>
-      let (st, pos, node, pending, moveAdded) :=
-        if moveAdded then let (st', pos', id) := addChild st pos node pending; (st', pos', id, ({} : NodeR), false)
-        else (st, pos, node, pending, moveAdded)
-      match st.arena[node]? with
+      let st1 := (flush st c).1
+      let c1 := (flush st c).2
+      match st1.arena[c1.node]? with
       | none => .error .oob
       | some nd =>
         match nd.parent, nd.posBefore with
         | some par, some pos2 =>
-          match parsePgn f st pos2 par {} false with
+          match parsePgn f st1 { pos := pos2, node := par } with
           | .error e => .error e
-          | .ok st' => parsePgn f st' pos node pending moveAdded
+          | .ok st' => parsePgn f st' c1
         | _, _ =>
-          match skipGroup f st.sc 1 with
-          | (sc', false) => .ok { st with sc := sc' }     -- broken PGN: return from parsePgn without adding anything
-          | (sc', true) => parsePgn f { st with sc := sc' } pos node pending moveAdded
+          match skipGroup f st1.sc 1 with
+          | (sc', false) => .ok { st1 with sc := sc' }     -- broken PGN: return from parsePgn without adding anything
+          | (sc', true) => parsePgn f { st1 with sc := sc' } c1
     | .nag =>
-      let pending := if moveAdded then { pending with nag := (stoi tok.s).getD 0 } else pending
-      parsePgn f st pos node pending moveAdded
+      parsePgn f st (if c.moveAdded then { c with pending := { c.pending with nag := (stoi tok.s).getD 0 } } else c)
     | .symbol =>
-      if strEq tok.s "1-0" || strEq tok.s "0-1" || strEq tok.s "1/2-1/2" || strEq tok.s "*" then finish
+      if isResultText tok.s then .ok (flush st c).1
       else
-        let t := tok.s.toArray
-        match t[t.size - 1]? with            -- `tok.token[tok.token.length() - 1]`
-        | none => .error .oob
-        | some lastChar =>
-          let t := if lastChar == '+' then t.extract 0 (t.size - 1) else t
-          let r : Except PErr (Array Char × Sc) :=
-            if isAnn lastChar then
-              match annStart t (t.size - 1) with
-              | .error e => .error e
-              | .ok movLen =>
-                let ann := (t.extract movLen t.size).toList
-                let nag := annToNag ann
-                .ok (t.extract 0 movLen, if nag > 0 then st.sc.putBack { ty := .nag, s := (toString nag).toList } else st.sc)
-            else .ok (t, st.sc)
-          match r with
-          | .error e => .error e
-          | .ok (t, sc) =>
-            let st := { st with sc := sc }
-            if t.size > 0 then
-              let (st, pos, node, pending) :=
-                if moveAdded then let (st', pos', id) := addChild st pos node pending; (st', pos', id, ({} : NodeR))
-                else (st, pos, node, pending)
-              match stringToMove pos t.toList with
-              | none => .error .invalidMove
-              | some m => parsePgn f st pos node { pending with move := some m } true
-            else parsePgn f st pos node pending moveAdded
+        match symbolPrep tok.s st.sc with
+        | .error e => .error e
+        | .ok (t, sc) =>
+          let st : PState := { st with sc := sc }
+          if t.size > 0 then
+            let st1 := (flush st c).1
+            let c1 := (flush st c).2
+            match stringToMove c1.pos t.toList with
+            | none => .error .invalidMove
+            | some m => parsePgn f st1 { c1 with pending := { c1.pending with move := some m, txt := t.toList }, moveAdded := true }
+          else parsePgn f st c
     | .comment =>
-      let pending := if moveAdded then { pending with post := pending.post ++ tok.s } else { pending with pre := pending.pre ++ tok.s }
-      parsePgn f st pos node pending moveAdded
-    | _ => finish
+      parsePgn f st (if c.moveAdded then { c with pending := { c.pending with post := c.pending.post ++ tok.s } }
+                     else { c with pending := { c.pending with pre := c.pending.pre ++ tok.s } })
+    | _ => .ok (flush st c).1
 
 structure Game where
   tags : List (List Char × List Char)     -- every tag pair in file order
@@ -286,12 +300,11 @@ def readPGN (sc : Sc) : Except PErr (Option Game × Sc) :=
   match readFEN (String.ofList fen) with
   | .error e => .error (.fen e)
   | .ok start =>
-    match parsePgn (4 * fuel) { arena := #[{}], sc := sc } start 0 {} false with
+    match parsePgn (4 * fuel) { arena := #[{}], sc := sc } { pos := start, node := 0 } with
     | .error e => .error e
     | .ok st =>
       let rootKids := match st.arena[0]? with | some r => r.children.length | none => 0
-      if tags.isEmpty && rootKids == 0 then .ok (none, st.sc)
-      else .ok (some { tags := tags, start := start, arena := st.arena }, st.sc)
+      .ok (if tags.isEmpty && rootKids == 0 then none else some { tags := tags, start := start, arena := st.arena }, st.sc)
 
 /-- all games of a byte string, as the harness loop reads them; the error (if any) ends the list -/
 def readAll : Nat → Sc → List Game → List Game × Option PErr
